@@ -16,7 +16,7 @@
    exercised end to end (in-process and through the three command-line tools). *)
 From Coq Require Import List String Ascii Arith Bool.
 From PC Require Import Base.Codes Comp.Syntax Comp.Compile Sys.System Finish.Apply Finish.ApplyProofs
-  Design.Designer Design.TemplateProofs Design.DGraph Design.DenoteGraph Design.DenoteTie Design.DenoteSat Design.Results Design.ResultsProofs.
+  Design.Designer Design.TemplateProofs Design.DGraph Design.DenoteGraph Design.DenoteTie Design.DenoteSat Design.Results Design.ResultsProofs Design.Loaded.
 Import ListNotations.
 
 Theorem C06_finished_bases_consistent_partial : forall t prefix bs vals, base_values t prefix bs = OK vals ->
@@ -81,3 +81,21 @@ Print Assumptions C06_designed_string_nonvacuous.
 Theorem C06_fits_check_sound : forall nts e w, fitsb nts e w = true -> fits nts e w.
 Proof. exact fitsb_fits. Qed.
 Print Assumptions C06_fits_check_sound.
+
+(* strand layout, no per-case hypothesis: every loaded and seeded document, every string that fits its arrays *)
+Theorem C06_loaded_designed_string_flows : forall (ls : list pline) (p : pspec) (lay : layout) (g : cgraph) (nts : list ascii),
+  load_spec ls pspec0 = OK p -> seed p false = OK (lay, g) ->
+  forall (e w : list (option nat)) (s : list (option ascii)), get_constraints p false = DOk e w s -> fits nts e w ->
+  exists (a : results) (recs : list (string * list ascii)),
+    process_results p lay nts = OK a /\ output_records p a = OK recs /\
+    (forall k n t, nth_error (p_bases p) k = Some (n, t) ->
+       exists v wv, In (n, v) recs /\ In ((n ++ "*")%string, wv) recs /\ wc_codes v = Some wv /\ List.length v = List.length t) /\
+    (forall n items l d, In (n, (items, l, d)) (p_strands p) ->
+       exists vs, afind (r_strands a) n = Some vs /\ read_positions nts (tstart_of lay n) l = OK vs /\
+         forall o c par, o < l -> nth o (flat_map (ref_c p (ctbl p)) items) (DAux 0 0, false) = (c, par) ->
+           exists k i bn t v b, c = DAux (2 * k) i /\ nth_error (p_bases p) k = Some (bn, t) /\ In (bn, v) recs /\
+                                nth_error v i = Some (base_char b) /\ nth_error vs o = Some (base_char (app_par par b))) /\
+    (forall sn names sy len, In (sn, (names, sy, len)) (p_structs p) ->
+       In (sn, join_plus (map (fun n => match afind (r_strands a) n with Some v => v | None => [] end) names)) recs).
+Proof. exact loaded_design_results_ok. Qed.
+Print Assumptions C06_loaded_designed_string_flows.
